@@ -98,7 +98,8 @@ class C28(Prop):
             '{a z 0 9 - . A _ \\n é １} (quick), additionally length <= 6 over 10 of them (thorough); plus every code point < 0x250 alone and '
             'embedded in a/…/a; plus grammar-generated valid names with one nasty character (controls, Unicode lower-case/digits, line '
             'separators, lone surrogates) inserted/substituted/appended; plus random Unicode and long strings. non-trivial = at most one '
-            'character outside [a-z0-9.-]; distinct by string. flow cases = (username, secret name or None) pairs pushed through the real '
+            'character outside [a-z0-9.-]; distinct by string. flow cases = (username, secret name or None, login_id None/empty/given, '
+            'is_developer, is_service_account, hail_identity) — every flag combination x boundary names + random — pushed through the real '
             'insert_new_user/check_valid_new_user source with a fake transaction: INSERT reached iff both valid')
     trusted = ['lone surrogate code points (possible in a Python str, not Lean Chars) are mapped to U+FFFD by the model driver',
                'auth.py handlers check_valid_new_user/insert_new_user are exec-ed from their own AST with a fake transaction '
@@ -198,10 +199,17 @@ class C28(Prop):
             yield self._case(self._random_string(rng))
 
     # ---- model / implementation -------------------------------------------------------------------
+    @staticmethod
+    def _flow_args(c):
+        """(username cps, secret cps|None, login_id str|None, is_developer, is_service_account, hail_identity)"""
+        f = c['flow']
+        return f['u'], f['s'], f.get('login', 'login-id'), bool(f.get('dev', False)), bool(f.get('sa', False)), f.get('ident')
+
     def model_lines(self, c):
         if 'flow' in c:
-            u, s = c['flow']['u'], c['flow']['s']
-            return [' '.join(['flow'] + ['%x' % cp for cp in u] + ['|'] + (['none'] if s is None else ['s'] + ['%x' % cp for cp in s]))]
+            u, s, login, dev, sa, _ident = self._flow_args(c)
+            head = ['flow', '1' if dev else '0', '1' if sa else '0', 'n' if login is None else 'e' if login == '' else 'v']
+            return [' '.join(head + ['%x' % cp for cp in u] + ['|'] + (['none'] if s is None else ['s'] + ['%x' % cp for cp in s]))]
         if c['s'] is None:
             return ['none']
         return [' '.join(['s'] + ['%x' % cp for cp in c['s']])]
@@ -221,7 +229,8 @@ class C28(Prop):
 
     def impl(self, c):
         if 'flow' in c:
-            return [self._run_flow(self._str(c['flow']['u']), self._str(c['flow']['s']))]
+            u, s, login, dev, sa, ident = self._flow_args(c)
+            return [self._run_flow(self._str(u), self._str(s), login, dev, sa, ident)]
         s = self._str(c['s'])
         if s is None:
             return ['s=%d' % self._secret_accepts(None)]
@@ -231,14 +240,17 @@ class C28(Prop):
         if out and out[0].startswith('IMPL-EXC'):
             return out[0]
         if 'flow' in c:
-            u, s = self._str(c['flow']['u']), self._str(c['flow']['s'])
-            want = spec_username(u) and (s is None or spec_secret(s))
+            u, s, login, dev, sa, ident = self._flow_args(c)
+            u, s = self._str(u), self._str(s)
+            kind = f'login_id={login!r}, is_developer={dev}, is_service_account={sa}, hail_identity={ident!r}'
+            names_ok = spec_username(u) and (s is None or spec_secret(s))
+            flags_ok = not (dev and sa) and (sa or bool(login))
             got = out[0]
-            if got == 'inserted' and not want:
-                return (f'user-creation flow (insert_new_user) reached the INSERT with username {u!r} and credentials secret name {s!r}, '
-                        'which are not both valid names')
-            if got != 'inserted' and want:
-                return f'user-creation flow (insert_new_user) refused the valid username {u!r} with secret name {s!r}'
+            if got == 'inserted' and not names_ok:
+                return (f'user-creation flow insert_new_user({kind}) reached the INSERT with username {u!r} and credentials secret name '
+                        f'{s!r}, which are not both valid names')
+            if got != 'inserted' and names_ok and flags_ok:
+                return f'user-creation flow insert_new_user({kind}) refused the valid username {u!r} with secret name {s!r}'
             return None
         s = self._str(c['s'])
         if s is None:
@@ -254,7 +266,10 @@ class C28(Prop):
 
     def classify(self, c, out):
         if 'flow' in c:
-            return (json.dumps(c, sort_keys=True), ['flow=' + out[0]])
+            _u, _s, login, dev, sa, _i = self._flow_args(c)
+            kind = 'service' if sa and not dev else 'developer' if dev and not sa else 'both' if dev else 'human'
+            return (json.dumps(c, sort_keys=True), ['flow=' + out[0], f'flow-account={kind}',
+                                                    'flow-login=' + ('None' if login is None else 'empty' if login == '' else 'given')])
         if c['s'] is None:
             return ('none', ['input=None'])
         s = c['s']
@@ -292,13 +307,18 @@ class C28(Prop):
         if 'static' in c:
             return c
         if 'flow' in c:
-            u, s = c['flow']['u'], c['flow']['s']
-            if s is not None and fails({'flow': {'u': u, 's': None}}):
-                s = None
-            u = self._shrink_cps(u, lambda x: fails({'flow': {'u': x, 's': s}}))
-            if s is not None:
-                s = self._shrink_cps(s, lambda x: fails({'flow': {'u': u, 's': x}}))
-            return {'flow': {'u': u, 's': s}}
+            f = dict(c['flow'])
+            for k in ('ident', 'login', 'dev', 'sa'):       # back to the defaults (human account with a login id) where possible
+                if k in f:
+                    g = {x: y for x, y in f.items() if x != k}
+                    if fails({'flow': g}):
+                        f = g
+            if f['s'] is not None and fails({'flow': {**f, 's': None}}):
+                f['s'] = None
+            f['u'] = self._shrink_cps(f['u'], lambda x: fails({'flow': {**f, 'u': x}}))
+            if f['s'] is not None:
+                f['s'] = self._shrink_cps(f['s'], lambda x: fails({'flow': {**f, 's': x}}))
+            return {'flow': f}
         if c['s'] is None:
             return c
         return {'s': self._shrink_cps(c['s'], lambda x: fails({'s': x}))}
@@ -343,11 +363,12 @@ class C28(Prop):
         self._flow = (ns, imported)
         return self._flow
 
-    def _run_flow(self, username, secret):
+    def _run_flow(self, username, secret, login_id='login-id', is_developer=False, is_service_account=False, hail_identity=None):
         ns, _ = self._load_flow()
         tx = _FakeTx()
         try:
-            _drive(ns['insert_new_user'](tx, username, 'login-id', False, False, hail_identity=None, hail_credentials_secret_name=secret))
+            _drive(ns['insert_new_user'](tx, username, login_id, is_developer, is_service_account, hail_identity=hail_identity,
+                                         hail_credentials_secret_name=secret))
         except (self.ex.AuthUserError,) as e:
             if tx.inserted:
                 return 'inserted'
@@ -405,6 +426,21 @@ class C28(Prop):
             pairs.append((u, sec))
         for u, s in pairs:
             yield {'flow': {'u': [ord(ch) for ch in u], 's': None if s is None else [ord(ch) for ch in s]}}
+        # every kind of account x every kind of login id x every boundary name: the name checks must not depend on the flags
+        kinds = [(dev, sa, login, ident) for dev in (False, True) for sa in (False, True) for login in (None, '', 'svc@hail.test')
+                 for ident in (None, 'sa@proj.iam')]
+        for u in names + ['abc', 'ci-bot', 'ABC', 'CI_Bot', 'abc--def', '-abc']:
+            for dev, sa, login, ident in kinds:
+                yield {'flow': {'u': [ord(ch) for ch in u], 's': None, 'login': login, 'dev': dev, 'sa': sa, 'ident': ident}}
+        for s in ['k', 'abc\n', 'A', 'a..b', '']:
+            for dev, sa, login, ident in kinds:
+                yield {'flow': {'u': [97, 98], 's': [ord(ch) for ch in s], 'login': login, 'dev': dev, 'sa': sa, 'ident': ident}}
+        for _ in range(n):
+            u = self._valid_name(rng, '-', 40) if rng.random() < 0.4 else self._random_string(rng)[:80]
+            sec = rng.choice([None, None, 'k', self._valid_name(rng, '.-', 60), self._random_string(rng)[:80]])
+            dev, sa, login, ident = rng.choice(kinds)
+            yield {'flow': {'u': [ord(ch) for ch in u], 's': None if sec is None else [ord(ch) for ch in sec], 'login': login, 'dev': dev,
+                            'sa': sa, 'ident': ident}}
 
 
 PROP = C28()
